@@ -176,7 +176,7 @@ func Gen(caseID, tier string) (json.RawMessage, error) {
 	p.ExpiryGraceS = int64(r.PickInt(0, 300))
 	if r.Chance(1, 4) {
 		// the KDC's clock is not the client's: ahead or behind by less than the permitted skew (all realms alike)
-		p.ClockOffset = time.Duration(r.PickInt(1, -1, 60, -60, 240, -240, 299, -299)) * time.Second
+		p.ClockOffset = time.Duration(r.PickInt(1, -1, 60, -60, 240, -240, 298, -298)) * time.Second // (Kerberos times are cut to whole seconds: 299 s of offset can show as 300.001 s)
 	}
 	if p.ClockOffset != 0 {
 		// RFC 4120 3.2.3: a ticket is refused as expired only when it is so by more than the permitted
